@@ -80,6 +80,13 @@ def cases(tier):
         for spec in (["C", D, 0.7], ["R", D, 0.0, 3.0], ["R", D, 2.0, -1.0], ["X", [0.3 * math.sin(i) for i in range(D)]],
                      ["I", D, [0.0, 1.0, -1.0]], ["B", D, 1.0]):
             out.append(("arbphase", spec))
+    # long, NEARLY linear phases: the detuning is nearly uniform (sample-to-sample differences within 1e-5 relative of one another, the
+    # tolerance of waveform equality) but not uniform - a slow chirp on a large carrier, two ramps whose slopes differ by parts per million
+    for D in (2000, 4000):
+        for omega, kappa in ((20.0, 2e-5), (-35.0, 1e-5), (5.0, 5e-6)):
+            out.append(("arbphase", ["X", [-omega * i * 1e-3 + kappa * (i * 1e-3) ** 2 for i in range(D)]]))
+        a = -0.02 * (D // 2)
+        out.append(("arbphase", ["+", ["R", D // 2, 0.0, a], ["R", D // 2, a * (1 + 1.0 / (D // 2)), a * (1 + 1.0 / (D // 2)) + a * (1 + 4e-6)]]))
     return out
 
 
@@ -343,6 +350,14 @@ def check_arbphase(spec):
     except Exception as e:
         return [(f"C16:arbitrary-phase-raises:{spec[0]}:duration={D if D <= 5 else 'n'}", f"{spec}: {e!r}"[:200])]
     det = S(p.detuning)
+    # independent reconstruction from the documented relation (detuning = -d(phase)/dt, the pulse's phase is the offset that makes the
+    # first sample right): phi[t] = phase_c - 1e-3 * sum(det[0..t])
+    rec = float(p.phase) - 1e-3 * np.cumsum(det)
+    d0 = (rec - ps + math.pi) % (2 * math.pi) - math.pi
+    if np.max(np.abs(d0)) > 1e-7:
+        t = int(np.argmax(np.abs(d0)))
+        return [(f"C16:arbitrary-phase-not-reproduced-by-its-detuning:{spec[0]}:duration={D if D <= 5 else 'n'}",
+                 f"{str(spec)[:80]}: at sample {t} the phase rebuilt from the detuning is off by {d0[t]:.3g} rad")]
     cs = ChannelSamples(pm.AbstractArray(np.ones(D)), pm.AbstractArray(det), pm.AbstractArray(np.full(D, float(p.phase))),
                         [_PulseTargetSlot(0, D, {"q0"})])
     got = np.asarray(cs.phase_modulation.as_array(detach=True), dtype=float)
